@@ -70,6 +70,9 @@ SELECTED = [
     ("Specifier._compare_equal", "packaging.specifiers", "Specifier._compare_equal"),
     ("Specifier._compare_not_equal", "packaging.specifiers", "Specifier._compare_not_equal"),
     ("Specifier._compare_compatible", "packaging.specifiers", "Specifier._compare_compatible"),
+    ("Specifier.prereleases", "packaging.specifiers", "Specifier.prereleases"),
+    ("Specifier.contains", "packaging.specifiers", "Specifier.contains"),
+    ("Specifier.filter", "packaging.specifiers", "Specifier.filter"),
 ]
 
 # classes whose instances the translated code handles as records `PyVal.obj <class name> <fields>`; attribute access on
@@ -199,6 +202,8 @@ class Fn:
         if len(qn) == 2 and qn[0] in self.globals and inspect.isclass(self.globals[qn[0]]):
             self.owner = self.globals[qn[0]]
         self._class_guard = set()
+        self.fn_locals = {}        # local name -> ("get_operator", class, receiver term, operator term)
+        self.dict_locals = {}      # local name -> {constant key: Lean local holding the value}
 
     # ------------------------------------------------------------------ static classes (for attribute resolution)
     def ann_class(self, ann):
@@ -426,8 +431,10 @@ class Fn:
                     ok = True
                 elif isinstance(p, ast.Starred):
                     ok = True
-                elif isinstance(p, (ast.If, ast.IfExp, ast.UnaryOp)) :
+                elif isinstance(p, (ast.If, ast.IfExp, ast.UnaryOp)):
                     ok = True                                    # truth test
+                elif isinstance(p, ast.BoolOp) and isinstance(parents.get(p), (ast.If, ast.UnaryOp)):
+                    ok = True                                    # truth test inside a condition
                 if not ok:
                     raise Unsupported(f"{n.id} is mutated in place and used where an alias could be created")
 
@@ -619,6 +626,8 @@ class Fn:
                 return
             if not isinstance(st.target, ast.Name):
                 raise Unsupported("annotated assignment to a non-name")
+            if self.special_assign(st.target.id, st.value, ind):
+                return
             p, c = self.expr(st.value)
             self.assign_name(st.target.id, p, c, ind)
         elif isinstance(st, ast.AugAssign):
@@ -637,6 +646,8 @@ class Fn:
                     self.assign_name(t.id, True, t0, ind)
                 return
             t = st.targets[0]
+            if isinstance(t, ast.Name) and self.special_assign(t.id, st.value, ind):
+                return
             if self.is_init and isinstance(t, ast.Attribute) and isinstance(t.value, ast.Name) and t.value.id == self.params()[0]:
                 me = lname(t.value.id)
                 self.emit(ind, f'{me} ← PyRt.setattr {me} "{t.attr}" {self.val(st.value)}')
@@ -699,6 +710,69 @@ class Fn:
             self.emit(ind + 1, f"else throw {e}")
         else:
             raise Unsupported(f"statement {type(st).__name__}")
+
+    def special_assign(self, name, value, ind):
+        """assignments whose value is not a PyVal: `f = self._get_operator(op)` (a bound method, called later) and
+        `kw = {"k": e, …}` (a constant-key dict passed on with `**kw`); both are resolved at translation time"""
+        assigned_once = sum(1 for n in _walk_scope(self.node.body) if name in _targets_of(n)) == 1
+        if isinstance(value, ast.Call) and isinstance(value.func, ast.Attribute) and value.func.attr == "_get_operator" \
+                and len(value.args) == 1 and not value.keywords:
+            c = self.static_class(value.func.value)
+            if c is None or not assigned_once:
+                raise Unsupported("_get_operator result bound more than once / on an unknown class")
+            self.check_get_operator(c)
+            r, o = self.fresh("r"), self.fresh("op")
+            self.emit(ind, f"let {r} := {self.val(value.func.value)}")
+            self.emit(ind, f"let {o} := {self.val(value.args[0])}")
+            self.fn_locals[name] = ("get_operator", c, r, o)
+            return True
+        if isinstance(value, ast.Dict) and assigned_once and all(isinstance(k, ast.Constant) and isinstance(k.value, str) for k in value.keys):
+            uses = [n for n in _walk_scope(self.node.body, into_exprs=True) if isinstance(n, ast.Name) and n.id == name and isinstance(n.ctx, ast.Load)]
+            parents = {}
+            for n in _walk_scope(self.node.body, into_exprs=True):
+                for ch in ast.iter_child_nodes(n):
+                    parents[ch] = n
+            if uses and all(isinstance(parents.get(u), ast.keyword) and parents[u].arg is None for u in uses):
+                d = {}
+                for k, v in zip(value.keys, value.values):
+                    t = self.fresh("kw")
+                    p, c = self.expr(v)
+                    self.emit(ind, f"let {t} := {c}" if p else f"let {t} ← {c}")
+                    d[k.value] = t
+                self.dict_locals[name] = d
+                return True
+        return False
+
+    def check_get_operator(self, c):
+        helper = self.ctx.lookup(c, "_get_operator")
+        guard = PARTIAL_EVAL_GUARDS.get(f"{c.__name__}._get_operator")
+        if not inspect.isfunction(helper) or guard is None or textwrap.dedent(inspect.getsource(helper)) != guard:
+            raise Unsupported("_get_operator is not the helper the translator knows how to evaluate")
+        table = self.ctx.lookup(c, "_operators")
+        if not isinstance(table, dict):
+            raise Unsupported("operator table")
+        return table
+
+    def get_operator_dispatcher(self, c):
+        """`<C>._get_operator__call self op a b`: the method `_compare_<_operators[op]>` chosen by the operator string
+        (KeyError for a string that is not a key), emitted once"""
+        table = self.check_get_operator(c)
+        name = f"{c.__name__}._get_operator__call"
+        if name not in self.ctx.dispatchers:
+            body = ""
+            deps = set()
+            for opstr, suffix in table.items():
+                impl = self.ctx.lookup(c, f"_compare_{suffix}")
+                if not inspect.isfunction(impl):
+                    raise Unsupported(f"_compare_{suffix} is not a plain function")
+                fn = self.ctx.require(impl)
+                deps.add(fn)
+                body += f"if PyVal.eq op (PyVal.str {lstr(opstr)}) then {fn} self a b else "
+            body += 'throw "KeyError"'
+            self.ctx.dispatchers[name] = f"def {name} (self op a b : PyVal) : M PyVal :=\n  {body}"
+            self.ctx.dispatcher_deps[name] = deps
+        self.ctx.deps.setdefault(self.ctx.current, set()).add(name)
+        return name
 
     def _check_loop_var_not_used_after(self, name, loop):
         """Python leaks the loop variable; the Lean binder does not: refuse functions that read it after the loop"""
@@ -951,7 +1025,7 @@ class Fn:
     _bound: list = []
 
     def bound_stack(self):
-        out = set()
+        out = set(getattr(self, "_extra_bound", ()))
         for s in self._bound:
             out |= s
         return out
@@ -1276,9 +1350,22 @@ class Fn:
 
     def call(self, e):
         f = e.func
-        kws = {k.arg: k.value for k in e.keywords}
-        if None in kws:
-            raise Unsupported("**kwargs in a call")
+        kws = {}
+        for k in e.keywords:
+            if k.arg is None:
+                if isinstance(k.value, ast.Name) and k.value.id in self.dict_locals:
+                    for key, loc in self.dict_locals[k.value.id].items():
+                        kws[key] = ast.Name(id=loc, ctx=ast.Load())
+                        self._extra_bound = getattr(self, "_extra_bound", set()) | {loc}
+                    continue
+                raise Unsupported("**kwargs in a call")
+            kws[k.arg] = k.value
+        if isinstance(f, ast.Name) and f.id in self.fn_locals:
+            kind, c, r, o = self.fn_locals[f.id]
+            if kws or len(e.args) != 2:
+                raise Unsupported("call of a comparison method with other than two positional arguments")
+            name = self.get_operator_dispatcher(c)
+            return False, f"{name} {r} {o} {self.val(e.args[0])} {self.val(e.args[1])}"
         if any(isinstance(a, ast.Starred) for a in e.args):
             raise Unsupported("*args in a call")
         # ---- plain names: builtins, selected functions, classes
